@@ -289,6 +289,25 @@ func (t *Transaction) Insert(op *ovsdb.Operation) (ovsdb.OperationResult, *updat
 		return ovsdb.ResultFromError(err), nil
 	}
 
+	// the UUID must not be in use by a row of the table, be it in the
+	// database or touched by this transaction
+	exists := false
+	if t.Cache != nil {
+		if tc := t.Cache.Table(op.Table); tc != nil && tc.HasRow(op.UUID) {
+			exists = true
+		}
+	}
+	if _, deleted := t.DeletedRows[op.UUID]; deleted {
+		exists = true
+	}
+	if row, err := t.Database.Get(t.DbName, op.Table, op.UUID); err == nil && row != nil {
+		exists = true
+	}
+	if exists {
+		err := ovsdb.NewConstraintViolation(fmt.Sprintf("duplicate uuid: a row with UUID %s already exists in table %s", op.UUID, op.Table))
+		return ovsdb.ResultFromError(err), nil
+	}
+
 	update := updates.ModelUpdates{}
 	err := update.AddOperation(t.Model, op.Table, op.UUID, nil, op)
 	if err != nil {
